@@ -32,6 +32,10 @@
 #endif
 #include "val.h"
 
+/* an entry that delivers more than this is not read further (data_status -77): nested compressed
+ * streams can expand a few hundred bytes into an effectively endless entry */
+#define DATA_CAP (24ULL << 20)
+
 struct src {
 	unsigned char *data; size_t len, pos;
 	val *rplan; size_t ri;
@@ -309,6 +313,7 @@ static void run_case(val *c)
 						memcpy(dbuf + total, buf, (size_t)n);
 					}
 					total += (unsigned long long)n;
+					if (total > DATA_CAP) { ds = -77; break; }	/* decompression bomb: stop, marked */
 					if (cmode == 2) want -= (size_t)n;
 				}
 				free(buf);
@@ -324,10 +329,12 @@ static void run_case(val *c)
 						const unsigned char *q = p;
 						if (off < last) flags |= 8;
 						/* dense rendering: zero-fill the hole before this block */
+						if (off > (la_int64_t)total && (unsigned long long)off - total > DATA_CAP) { ds = -77; break; }
 						while ((la_int64_t)total < off) { h ^= 0; h *= 1099511628211ULL; total++; }
 						for (k = 0; k < n; k++) { h ^= q[k]; h *= 1099511628211ULL; }
 						total += n;
 						last = off + (la_int64_t)n;
+						if (total > DATA_CAP) { ds = -77; break; }
 					}
 				}
 			} else if (cmode == 3) {
